@@ -51,7 +51,10 @@ func (t *token) String() string {
 }
 
 func (t *token) Char() rune {
-	value, _, _, _ := strconv.UnquoteChar(t.Text[1:len(t.Text)-1], '\'')
+	value, _, tail, err := strconv.UnquoteChar(t.Text[1:len(t.Text)-1], '\'')
+	if err != nil || tail != "" {
+		panicf("error parsing char: %v", t.Text)
+	}
 	return value
 }
 
